@@ -1,20 +1,18 @@
-SPECIFICATION Spec
+SPECIFICATION USpec
 CONSTANTS
   Ids = {"u1"}
   Sess = {"c1"}
   MaxOut = 1
   MaxTicks = 1
-  MaxCrashes = 1
-  MaxOps = 3
+  MaxCrashes = 0
+  MaxOps = 1
   RunEnabled = TRUE
-  Ops = {"submit", "status"}
+  Ops = {"submit"}
   FindUnitHoldsRLock = FALSE
   KF_EmptyStatus = TRUE
   KF_CancelOverS = FALSE
   CancelKeepsSucceeded = TRUE
   KF_LiveRunnerFailed = TRUE
-INVARIANTS
-  TypeOK
-  Durable
-  NoStatusBlocks
-  UniqueIDs
+  UnitTraceFile = "unit_trace.ndjson"
+POSTCONDITION UnitTraceAccepted
+CHECK_DEADLOCK FALSE
